@@ -4,6 +4,8 @@ import GrmVerif.Lemmas.Recog
 import GrmVerif.Lemmas.FollowsImpl
 import GrmVerif.Lemmas.MaxCostsUB
 import GrmVerif.Lemmas.MinSentenceTerm
+import GrmVerif.Lemmas.MinSentencesTerm
+import GrmVerif.Lemmas.MinSentencesTrees
 /-!
 # C17 — grammar analyses (FIRST, FOLLOW, nullable, reachability, costs) are exact
 
@@ -407,6 +409,217 @@ theorem min_sentence_impl_terminates_iff (G : Grammar) (hwf : G.wf = true) (tc :
     | fuelOut => rfl
     | done w => exact absurd hres (Impl.minSentenceWith_diverges G tc _ hinf fuel w)
 
+/-! ### `min_sentences` (plural) itself
+
+`Model/MinSentencesImpl.lean` transcribes `SentenceGenerator::min_sentences`: the closure `cheapest_prods`
+(the saturating sums of `cheapest_prod`, `<=` with `clear()` on `<`, so ALL productions of lowest cost in
+production order), for every such production the empty-production shortcut, the vector `ms` with one vector
+of sentences per symbol (a recursive call per rule symbol, `[[t]]` per token) and the odometer `'b: loop`
+over `todo` (the LAST column advances first; a column that spills is reset and the one before it advances;
+the loop ends when the first column spills; `cur` is the concatenation of `ms[i][todo[i]]` for `i = 0 …`;
+index errors are panics). The recursion takes its DEPTH as fuel; the odometer loop is given the number of
+combinations plus one as fuel and `Lemmas/Odometer.lean` proves that it pushes exactly `Impl.combos ms` —
+the concatenations of one sentence per column, first column varying slowest — without running out. -/
+
+/-- **`min_sentences` is sound.** Under the hypotheses of `min_sentence_impl_sound` — a well-formed grammar,
+a vector of token costs, `c` the reference table of minimal costs, no sum of `rule_min_costs` overflowing
+(`sumsFit`), a rule `r` whose minimal cost `x` is below `u16::MAX` — the model of `min_sentences(r)` never
+panics (in particular the odometer never indexes out of range), whatever recursion depth `fuel` it is
+allowed; and whenever it returns a vector `L`, `L` is not empty and EVERY sentence in `L` is derived by `r`
+and costs exactly `x` = `min_sentence_cost(r)`. (It does not always return:
+`min_sentences_impl_terminates_iff`.) -/
+theorem min_sentences_impl_sound (G : Grammar) (hwf : G.wf = true) (tc : List Nat) (htc : tc.length = G.ntoks)
+    (c : List (Option Nat)) (hc : minCosts G (Impl.tcF tc) = some c)
+    (hfit : Impl.sumsFit G (Impl.tcF tc) c = true) (r x : Nat) (hr : r < G.nrules)
+    (hx : look c r = some x) (hlt : x < Impl.U16MAX) (fuel : Nat) :
+    Impl.minSentences G tc r fuel ≠ .panic ∧
+    ∀ L, Impl.minSentences G tc r fuel = .done L →
+      L ≠ [] ∧ ∀ w ∈ L, Derives G (.rule r) w ∧ cost (Impl.tcF tc) w = x := by
+  obtain ⟨hmt, hunf⟩ := Impl.minSentences_unfold G hwf tc htc c hc hfit
+  have hs := Impl.minSentencesWith_sound G hwf tc c htc hmt fuel r x hr hx hlt
+  rw [hunf]
+  cases hres : Impl.minSentencesWith G tc (some (Impl.concr c)) fuel r with
+  | panic => rw [hres] at hs; exact hs.elim
+  | fuelOut => exact ⟨(by intro h; cases h), (by intro L h; cases h)⟩
+  | done L =>
+    rw [hres] at hs
+    refine ⟨(by intro h; cases h), ?_⟩
+    intro L' hL'
+    cases hL'
+    exact hs
+
+/-- **`min_sentences` is complete.** Under the same hypotheses, whenever the model of `min_sentences(r)`
+returns a vector `L`, EVERY sentence that `r` derives at cost `x` = `min_sentence_cost(r)` is in `L`: the
+set enumerated is the set of ALL minimal-cost sentences of the rule, nothing less. (By
+`min_cost_sentences_are_cheapest_derivations` these are exactly the sentences that have a derivation using
+one of the productions `cheapest_prods` returns at every step — the two readings of "minimal sentences"
+coincide.) `L` can contain a sentence more than once: `min_sentences_impl_order` and
+`min_sentences_impl_trees` say exactly what `L` is. -/
+theorem min_sentences_impl_complete (G : Grammar) (hwf : G.wf = true) (tc : List Nat)
+    (htc : tc.length = G.ntoks) (c : List (Option Nat)) (hc : minCosts G (Impl.tcF tc) = some c)
+    (hfit : Impl.sumsFit G (Impl.tcF tc) c = true) (r x : Nat) (hr : r < G.nrules)
+    (hx : look c r = some x) (hlt : x < Impl.U16MAX) (fuel : Nat) (L : List (List Nat))
+    (hL : Impl.minSentences G tc r fuel = .done L) :
+    ∀ w, Derives G (.rule r) w → cost (Impl.tcF tc) w = x → w ∈ L := by
+  obtain ⟨hmt, hunf⟩ := Impl.minSentences_unfold G hwf tc htc c hc hfit
+  rw [hunf] at hL
+  exact Impl.minSentencesWith_complete G hwf tc c htc hmt fuel r x hr hx hlt L hL
+
+/-- **minimal-cost sentences = sentences derived through cheapest productions only.** For every well-formed
+grammar, token-cost function and the reference table `c` of minimal costs: a rule `r` derives `w` at its
+minimal cost (`look c r = some (cost w)`) if and only if `w` has a derivation from `r` in which every rule
+is expanded by a production whose cost — every rule counted at its minimal cost — equals the minimal cost
+of its rule (`Impl.TightDerives`; for rules of minimal cost below `u16::MAX` these are the productions
+`cheapest_prods` returns, `Impl.cheapestProds_spec`). So "all sentences of minimal cost" and "all sentences
+derivable through cheapest productions at every step" are the same set, and a derivation of a minimal-cost
+sentence can never use a production that is not a cheapest one. -/
+theorem min_cost_sentences_are_cheapest_derivations (G : Grammar) (hwf : G.wf = true) (tc : Nat → Nat)
+    (c : List (Option Nat)) (hc : minCosts G tc = some c) (r : Nat) (hr : r < G.nrules) (w : List Nat) :
+    (Derives G (.rule r) w ∧ look c r = some (cost tc w)) ↔ Impl.TightDerives G tc (look c) (.rule r) w := by
+  obtain ⟨_, hfix⟩ := minCostsFrom_realised _ _ c (realised_init G tc G.nrules) hc
+  have hfix' : ∀ q, q < G.nrules → look c q = ruleCost G tc (look c) q := by
+    intro q hq
+    have := look_stepCosts G tc c q
+    rw [hfix] at this
+    simpa [hq] using this
+  constructor
+  · rintro ⟨hd, hcw⟩
+    exact Impl.tightDerives_of_min hfix' hwf hd (by simpa [Grammar.symOk] using hr) (by simpa [symCost] using hcw)
+  · intro h
+    have := Impl.tightDerives_sound h
+    exact ⟨this.1, by simpa [symCost] using this.2⟩
+
+/-- **what the vector is, in which order, and when it has duplicates.** Under the hypotheses of
+`min_sentences_impl_sound`: if the model of `min_sentences(r)` returns `L` at recursion depth `fuel + 1`,
+then the calls for the rules of the cheapest productions returned at depth `fuel`, and `L` is the
+concatenation, over the cheapest productions `p` of `r` in production order (`Impl.cheapSet`: the
+productions of `r` whose cost, rules at their minimal cost, is `x`), of the combinations `Impl.combos` of
+the vectors of the symbols of `p` — `[[t]]` for a token, the returned vector for a rule (`Impl.gatherP`) —,
+i.e. all concatenations of one sentence per symbol, the FIRST symbol's sentence varying slowest and the last
+one's fastest (for an empty production: the empty sentence once). So `L` has one entry per choice of a
+cheapest production and of one entry per symbol, not one per sentence: `min_sentences_impl_trees` turns this
+into the exact account of duplicates. -/
+theorem min_sentences_impl_order (G : Grammar) (hwf : G.wf = true) (tc : List Nat)
+    (htc : tc.length = G.ntoks) (c : List (Option Nat)) (hc : minCosts G (Impl.tcF tc) = some c)
+    (hfit : Impl.sumsFit G (Impl.tcF tc) c = true) (r x : Nat) (hr : r < G.nrules)
+    (hx : look c r = some x) (hlt : x < Impl.U16MAX) (fuel : Nat) (L : List (List Nat))
+    (hL : Impl.minSentences G tc r (fuel + 1) = .done L) :
+    (∀ p ∈ Impl.cheapSet G tc c r x, ∀ q, Sym.rule q ∈ G.rhs p →
+      ∃ Lq, Impl.minSentences G tc q fuel = .done Lq) ∧
+    L = (Impl.cheapSet G tc c r x).flatMap (fun p =>
+      Impl.combos (Impl.gatherP (fun q => (Impl.minSentences G tc q fuel).val []) (G.rhs p))) := by
+  obtain ⟨hmt, hunf⟩ := Impl.minSentences_unfold G hwf tc htc c hc hfit
+  rw [hunf] at hL
+  simp only [Impl.minSentencesWith, Impl.cheapestProds_spec G hwf tc c htc hmt hr hx hlt] at hL
+  have hinv := Impl.iterO_mssProd_inv G _ _ _ _ hL
+  have hdone := Impl.iterO_mssProd_done G (Impl.minSentencesWith G tc (some (Impl.concr c)) fuel)
+    (Impl.cheapSet G tc c r x) []
+    (fun p hp q hq => by
+      obtain ⟨L', hL'⟩ := hinv p hp q hq
+      obtain ⟨_, _, _, hall⟩ := Impl.cheap_rules G hwf tc c hp hlt
+      obtain ⟨hq1, x', hx', hlt'⟩ := hall q hq
+      have := Impl.minSentencesWith_sound G hwf tc c htc hmt fuel q x' hq1 hx' hlt'
+      rw [hL'] at this
+      exact ⟨L', hL', this.1⟩)
+  rw [hL] at hdone
+  simp only [Impl.Outcome.done.injEq, List.nil_append] at hdone
+  constructor
+  · intro p hp q hq
+    rw [hunf]
+    exact hinv p hp q hq
+  · rw [hdone]
+    simp only [hunf]
+    rfl
+
+/-- **the vector has one entry per derivation tree, not per sentence.** Under the hypotheses of
+`min_sentences_impl_sound`, whenever the model of `min_sentences(r)` returns `L` there is a list `T` of
+derivation trees (`Impl.DTree`: a token, or a production with one subtree per symbol) such that `T` has no
+duplicates, `T` contains exactly the derivation trees of `r` all of whose nodes carry a cheapest production
+of their rule (`Impl.TightTree`; by `min_cost_sentences_are_cheapest_derivations` these are exactly the
+derivation trees of the minimal-cost sentences of `r`), and `L` is the list of the yields of the trees of `T`
+in order. So a sentence occurs in `L` exactly as many times as it has such trees: the code does NOT guarantee
+a vector without duplicates — `min_sentences_impl_nodup_iff`. -/
+theorem min_sentences_impl_trees (G : Grammar) (hwf : G.wf = true) (tc : List Nat)
+    (htc : tc.length = G.ntoks) (c : List (Option Nat)) (hc : minCosts G (Impl.tcF tc) = some c)
+    (hfit : Impl.sumsFit G (Impl.tcF tc) c = true) (r x : Nat) (hr : r < G.nrules)
+    (hx : look c r = some x) (hlt : x < Impl.U16MAX) (fuel : Nat) (L : List (List Nat))
+    (hL : Impl.minSentences G tc r fuel = .done L) :
+    ∃ T : List Impl.DTree, T.Nodup ∧
+      (∀ t, t ∈ T ↔ Impl.TightTree G (Impl.tcF tc) (look c) t (.rule r)) ∧
+      L = T.map Impl.DTree.yield := by
+  obtain ⟨hmt, hunf⟩ := Impl.minSentences_unfold G hwf tc htc c hc hfit
+  rw [hunf] at hL
+  obtain ⟨h1, h2, h3⟩ := Impl.msw_trees G hwf tc c htc hmt fuel r x hr hx hlt L hL
+  exact ⟨_, h2, h3, h1⟩
+
+/-- **when the vector has duplicates.** Under the same hypotheses, the vector `L` the model of
+`min_sentences(r)` returns is free of duplicates if and only if no two different derivation trees of `r` built
+from cheapest productions have the same yield, i.e. if and only if the grammar is unambiguous on the
+minimal-cost sentences of `r`. (`A: 'a' | 'a'` and `S: B | C; B: 'a'; C: 'a'` — example `exDup` below — give
+the sentence `a` twice.) -/
+theorem min_sentences_impl_nodup_iff (G : Grammar) (hwf : G.wf = true) (tc : List Nat)
+    (htc : tc.length = G.ntoks) (c : List (Option Nat)) (hc : minCosts G (Impl.tcF tc) = some c)
+    (hfit : Impl.sumsFit G (Impl.tcF tc) c = true) (r x : Nat) (hr : r < G.nrules)
+    (hx : look c r = some x) (hlt : x < Impl.U16MAX) (fuel : Nat) (L : List (List Nat))
+    (hL : Impl.minSentences G tc r fuel = .done L) :
+    L.Nodup ↔ ∀ t t', Impl.TightTree G (Impl.tcF tc) (look c) t (.rule r) →
+      Impl.TightTree G (Impl.tcF tc) (look c) t' (.rule r) → t.yield = t'.yield → t = t' := by
+  obtain ⟨T, hn, hmem, rfl⟩ := min_sentences_impl_trees G hwf tc htc c hc hfit r x hr hx hlt fuel L hL
+  rw [Impl.nodup_map_iff_injOn _ T hn]
+  constructor
+  · intro h t t' ht ht' e
+    exact h t ((hmem t).mpr ht) t' ((hmem t').mpr ht') e
+  · intro h a ha b hb e
+    exact h a b ((hmem a).mp ha) ((hmem b).mp hb) e
+
+/-- **on which grammars `min_sentences` returns** (the exact extent of finding C17-minsents-tight-cycle).
+Under the hypotheses of `min_sentences_impl_sound`, let `tightInfAll r` be the decidable predicate "in the
+graph that joins every rule to the rules of ALL the productions `cheapest_prods` returns for it (not only the
+first one, as for `min_sentence`), `r` is or reaches a rule that reaches itself" (`Impl.tightInfAll`: the
+verified reference reachability on the grammar `allTightG` that keeps exactly these productions). Then
+* if `tightInfAll r` is false the recursion of the model of `min_sentences(r)` ends: it returns within the
+  recursion depth `minSentencesFuel` = `nrules + 1`, with the same vector for every larger depth — a vector
+  that is sound and complete by the two theorems above;
+* if `tightInfAll r` is true the model exceeds EVERY recursion depth: the real `min_sentences(r)` recurses
+  until the stack overflows (`A: A | 'a'`, and also `A: 'a' | A`, on which `min_sentence` returns). -/
+theorem min_sentences_impl_terminates_iff (G : Grammar) (hwf : G.wf = true) (tc : List Nat)
+    (htc : tc.length = G.ntoks) (c : List (Option Nat)) (hc : minCosts G (Impl.tcF tc) = some c)
+    (hfit : Impl.sumsFit G (Impl.tcF tc) c = true) (r x : Nat) (hr : r < G.nrules)
+    (hx : look c r = some x) (hlt : x < Impl.U16MAX) :
+    (Impl.tightInfAll G tc (some (Impl.concr c)) r = false →
+      ∃ L, ∀ fuel, Impl.minSentencesFuel G ≤ fuel → Impl.minSentences G tc r fuel = .done L) ∧
+    (Impl.tightInfAll G tc (some (Impl.concr c)) r = true →
+      ∀ fuel, Impl.minSentences G tc r fuel = .fuelOut) := by
+  obtain ⟨hmt, hunf⟩ := Impl.minSentences_unfold G hwf tc htc c hc hfit
+  constructor
+  · intro hti
+    have hni : ¬ Impl.Inf (Impl.allTightG G tc (some (Impl.concr c))) r := by
+      intro hinf
+      rw [(Impl.tightInfAll_iff G tc _ hwf r).mpr hinf] at hti
+      cases hti
+    obtain ⟨L, hLf⟩ := Impl.minSentencesWith_terminates G hwf tc c htc hmt hr hx hlt hni
+    exact ⟨L, fun fuel hf => by rw [hunf]; exact hLf fuel hf⟩
+  · intro hti fuel
+    have hinf := (Impl.tightInfAll_iff G tc _ hwf r).mp hti
+    have hs := Impl.minSentencesWith_sound G hwf tc c htc hmt fuel r x hr hx hlt
+    rw [hunf]
+    cases hres : Impl.minSentencesWith G tc (some (Impl.concr c)) fuel r with
+    | panic => rw [hres] at hs; exact hs.elim
+    | fuelOut => rfl
+    | done L => exact absurd hres (Impl.minSentencesWith_diverges G tc _ hinf fuel L)
+
+/-- **`min_sentence` picks one of `min_sentences`.** Under the same hypotheses, whenever the model of
+`min_sentence(r)` returns a sentence `w` (its loop ends within `fuel₁` iterations) and the model of
+`min_sentences(r)` returns a vector `L` (within recursion depth `fuel₂`), `w` is an element of `L`. -/
+theorem min_sentence_in_min_sentences (G : Grammar) (hwf : G.wf = true) (tc : List Nat)
+    (htc : tc.length = G.ntoks) (c : List (Option Nat)) (hc : minCosts G (Impl.tcF tc) = some c)
+    (hfit : Impl.sumsFit G (Impl.tcF tc) c = true) (r x : Nat) (hr : r < G.nrules)
+    (hx : look c r = some x) (hlt : x < Impl.U16MAX) (fuel₁ fuel₂ : Nat) (w : List Nat) (L : List (List Nat))
+    (hw : Impl.minSentence G tc r fuel₁ = .done w) (hL : Impl.minSentences G tc r fuel₂ = .done L) :
+    w ∈ L := by
+  obtain ⟨hd, hcw⟩ := (min_sentence_impl_sound G hwf tc htc c hc hfit r x hr hx hlt fuel₁).2 w hw
+  exact min_sentences_impl_complete G hwf tc htc c hc hfit r x hr hx hlt fuel₂ L hL w hd hcw
+
 /-! ### non-vacuity (tests) -/
 
 /-- `^: S; S: A B 'c'; A: 'a' | ; B: 'b' | ;` tokens a=0 b=1 c=2 eof=3; rules ^=0 S=1 A=2 B=3 -/
@@ -443,6 +656,51 @@ example : Impl.minSentence exRec [1, 1] 1 200 = .fuelOut := by decide
 example : Impl.tightInf exRec [1, 1] (some [1, 1]) 1 = true := by decide
 example : Impl.tightInf exG [1, 1, 1, 1] (some [1, 1, 0, 0]) 0 = false := by decide
 example : Impl.minSentenceFuel exG = 485 := by decide
+
+/-- a grammar with two cheapest productions and a nullable symbol (tests of the `min_sentences` theorems):
+`^: S; S: N X Y | 'c' 'c' | 'a' 'b' 'c'; N: ; X: 'a' | 'b'; Y: 'a' | 'b' | 'c' 'c'`
+tokens a=0 b=1 c=2 eof=3; rules ^=0 S=1 N=2 X=3 Y=4; unit costs. `S` has minimal cost 2 with the two cheapest
+productions `N X Y` and `'c' 'c'`; `N` is nullable; the third production of `Y` and of `S` are dearer. -/
+def exMany : Grammar :=
+  { ntoks := 4, nrules := 5, eof := 3, startProd := 0,
+    prods := [(0, [.rule 1]), (1, [.rule 2, .rule 3, .rule 4]), (1, [.tok 2, .tok 2]), (1, [.tok 0, .tok 1, .tok 2]),
+      (2, []), (3, [.tok 0]), (3, [.tok 1]), (4, [.tok 0]), (4, [.tok 1]), (4, [.tok 2, .tok 2])] }
+
+example : exMany.wf = true := by decide
+example : minCosts exMany (Impl.tcF [1, 1, 1, 1]) = some [some 2, some 2, some 0, some 1, some 1] := by decide
+example : Impl.sumsFit exMany (Impl.tcF [1, 1, 1, 1]) [some 2, some 2, some 0, some 1, some 1] = true := by decide
+example : Impl.cheapestProds exMany [1, 1, 1, 1] (some [2, 2, 0, 1, 1]) 1 = some [1, 2] := by decide
+example : Impl.cheapSet exMany [1, 1, 1, 1] [some 2, some 2, some 0, some 1, some 1] 1 2 = [1, 2] := by decide
+/-- the odometer: the last column (`Y`) advances first; the sentences of the second cheapest production follow -/
+example : Impl.minSentences exMany [1, 1, 1, 1] 1 (Impl.minSentencesFuel exMany) =
+    .done [[0, 0], [0, 1], [1, 0], [1, 1], [2, 2]] := by decide
+example : Impl.minSentences exMany [1, 1, 1, 1] 2 (Impl.minSentencesFuel exMany) = .done [[]] := by decide
+example : Impl.tightInfAll exMany [1, 1, 1, 1] (some [2, 2, 0, 1, 1]) 1 = false := by decide
+example : Impl.minSentence exMany [1, 1, 1, 1] 1 (Impl.minSentenceFuel exMany) = .done [0, 0] := by decide
+/-- too shallow a recursion is reported as such, not as an answer -/
+example : Impl.minSentences exMany [1, 1, 1, 1] 0 2 = .fuelOut := by decide
+example : Impl.odoLoop [[[0], [1]], [[5]], [[2], [3], [4]]] 7 [0, 0, 0] [] =
+    .done [[0, 5, 2], [0, 5, 3], [0, 5, 4], [1, 5, 2], [1, 5, 3], [1, 5, 4]] := by decide
+example : Impl.combos [[[0], [1]], [[5]], [[2], [3], [4]]] =
+    [[0, 5, 2], [0, 5, 3], [0, 5, 4], [1, 5, 2], [1, 5, 3], [1, 5, 4]] := by decide
+/-- a column without a sentence: the out-of-range panic of `ms[i][todo[i]]` -/
+example : Impl.odoLoop [[[0]], []] (Impl.odoFuel [[[0]], []]) [0, 0] [] = .panic := by decide
+
+/-- duplicates: `^: S; S: B | C; B: 'a'; C: 'a'` — two derivation trees for the one minimal sentence -/
+def exDup : Grammar :=
+  { ntoks := 2, nrules := 4, eof := 1, startProd := 0,
+    prods := [(0, [.rule 1]), (1, [.rule 2]), (1, [.rule 3]), (2, [.tok 0]), (3, [.tok 0])] }
+example : Impl.minSentences exDup [1, 1] 1 (Impl.minSentencesFuel exDup) = .done [[0], [0]] := by decide
+
+/-- finding C17-minsents-tight-cycle: on `exRec` (`A: A | 'a'`) and on `^: A; A: 'a' | A` — where `min_sentence`
+returns because the FIRST cheapest production is `'a'` — `min_sentences` exceeds every recursion depth -/
+def exRec2 : Grammar :=
+  { ntoks := 2, nrules := 2, eof := 1, startProd := 0, prods := [(0, [.rule 1]), (1, [.tok 0]), (1, [.rule 1])] }
+example : Impl.tightInfAll exRec [1, 1] (some [1, 1]) 1 = true := by decide
+example : Impl.tightInfAll exRec2 [1, 1] (some [1, 1]) 1 = true := by decide
+example : Impl.tightInf exRec2 [1, 1] (some [1, 1]) 1 = false := by decide
+example : Impl.minSentence exRec2 [1, 1] 1 50 = .done [0] := by decide
+example : Impl.minSentences exRec2 [1, 1] 1 12 = .fuelOut := by decide
 
 /-- a rule without productions (excluded by `everyRuleHasProd`): the sweeps of `rule_max_costs` never end -/
 def exNoProd : Grammar :=
